@@ -10,6 +10,10 @@ import hgxv
 
 RULE = ("random Hypergraph instances (0-9 nodes from a sparse int or str universe mapped to rank, 0-10 hyperedges of size "
         "1-5 incl. singletons, explicit isolated nodes, nodes/hyperedges inserted in random order, repeated insertions, 30% of the histories with remove_edge / remove_node(keep_edges) / re-insertion), "
+        "each instance reached through a PROGRAM over up to 4 objects (65% of the cases): temporary hyperedges removed again (id gaps), removal + re-insertion, "
+        "copy() / subhypergraph() / constructor / add_edges / remove_edges / remove_nodes / clear, the ORIGINAL of a copy mutated afterwards, the COPY of an original "
+        "mutated afterwards, the same object queried - mutated in place (also with equal node/hyperedge counts) - queried again; every object is checked "
+        "at the end of the program and at intermediate points against the content the history defines (independent shadow) - one check of one object = one case; "
         "EVERY node (the falsy labels 0 and '' are forced into 60% of the cases), every filter value on its own: none, size in 0..7, order in 0..6 (size 0 and values above the largest hyperedge match nothing), "
         "each through the Hypergraph method and the module-level function; DirectedHypergraph / TemporalHypergraph / "
         "MultiplexHypergraph instances of the same shape for the degree functions; thorough adds ALL 32768 hypergraphs on "
@@ -18,7 +22,8 @@ RULE = ("random Hypergraph instances (0-9 nodes from a sparse int or str univers
         "excluded by that filter (for the degree-only classes: some filter excludes and some filter keeps a hyperedge)")
 ASSUMPTIONS = ["hyperedges are duplicate-free node tuples over nodes of the hypergraph (what get_edges() returns)",
                "labels are mapped to their rank in sorted order before they reach the model",
-               "get_nodes()/get_edges() list the nodes / distinct hyperedges of the container (that is C01-C04)",
+               "the content of an object is what its history (add/remove/copy/subhypergraph/clear, set semantics as documented) defines; "
+               "get_nodes()/get_edges() are compared with that content at every check (a difference is reported, the container itself is C01-C04)",
                "both order= and size= given is outside the property (the code rejects it)"]
 TRUSTED = ["Python set/dict/deque/max semantics; the visited *set* of _bfs is compared as a set",
            "largest_component: any component of maximal size is accepted (tie-breaking is not part of the property)"]
@@ -155,28 +160,294 @@ def gen_other(rng, kind):
     return {"kind": kind, "ops": ops}
 
 
-def build(case):
-    from hypergraphx import Hypergraph, DirectedHypergraph, TemporalHypergraph, MultiplexHypergraph
+# ------------------------------------------------------------------------------------------
+# programs: every object a user can hold is reached through a history over several objects
+#
+# ops (JSON lists; `focus` = the object the mutations go to, object 0 at the start):
+#   ["n", x]  add_node            ["e", ...] add_edge      (H: e | D: [S, T] | T: e, time | M: e, layer)
+#   ["re", ...] remove_edge (same arguments, skipped when the record is absent)   ["rn", x, keep] remove_node(keep_edges)
+#   H only: ["ctor", [e..]] Hypergraph(edge_list=..) as the first op, ["E", [e..]] add_edges, ["RE", [e..]] remove_edges,
+#           ["RN", [x..], keep] remove_nodes, ["clr"] clear, ["sub", src, [x..]] new object = objs[src].subhypergraph(..)
+#   ["cp", src] new object = copy of objs[src]   ["on", i] focus := i   ["chk"(, i)] check an object now
+# every object is checked once more at the end of the program.
+
+MAX_OBJS = 4
+LAYERS = ["a", "b", "c"]
+
+
+class Shadow:
+    """the content a history defines (set semantics of the documented operations), independent of the implementation"""
+
+    def __init__(self, kind):
+        self.kind = kind
+        self.nodes = {}
+        self.recs = {}
+
+    def copy(self):
+        s = Shadow(self.kind)
+        s.nodes, s.recs = dict(self.nodes), dict(self.recs)
+        return s
+
+    def rec(self, op):
+        k = self.kind
+        if k == "H":
+            return tuple(sorted(op[1]))
+        if k == "D":
+            return (tuple(sorted(op[1][0])), tuple(sorted(op[1][1])))
+        if k == "T":
+            return (op[2], tuple(sorted(op[1])))
+        return (tuple(sorted(op[1])), op[2])
+
+    def members(self, r):
+        k = self.kind
+        return r if k == "H" else r[0] + r[1] if k == "D" else r[1] if k == "T" else r[0]
+
+    def add_node(self, x):
+        self.nodes.setdefault(x, None)
+
+    def add(self, r):
+        self.recs.setdefault(r, None)
+        for x in self.members(r):
+            self.add_node(x)
+
+    def remove(self, r):
+        del self.recs[r]
+
+    def reduce(self, r, x):
+        """the record without node x as remove_node(keep_edges=True) re-inserts it; None = dropped"""
+        k = self.kind
+        if k == "H":
+            return tuple(y for y in r if y != x)                 # may be the empty hyperedge ()
+        if k == "D":
+            q = (tuple(y for y in r[0] if y != x), tuple(y for y in r[1] if y != x))
+            return q if q[0] and q[1] else None
+        if k == "T":
+            q = tuple(y for y in r[1] if y != x)
+            return (r[0], q) if q else None
+        q = tuple(y for y in r[0] if y != x)
+        return (q, r[1]) if q else None
+
+    def remove_node(self, x, keep):
+        inc = [r for r in self.recs if x in self.members(r)]
+        if keep:
+            for r in inc:
+                q = self.reduce(r, x)
+                if q is not None:
+                    self.add(q)
+        for r in inc:
+            del self.recs[r]
+        del self.nodes[x]
+
+    def clear(self):
+        self.nodes, self.recs = {}, {}
+
+    def sub(self, nodes):
+        s = Shadow(self.kind)
+        for x in nodes:
+            s.add_node(x)
+        keep = set(nodes)
+        for r in self.recs:
+            if set(self.members(r)) <= keep:
+                s.add(r)
+        return s
+
+
+def op_of_rec(kind, r, tag):
+    if kind == "H":
+        return [tag, list(r)]
+    if kind == "D":
+        return [tag, [list(r[0]), list(r[1])]]
+    if kind == "T":
+        return [tag, list(r[1]), r[0]]
+    return [tag, list(r[0]), r[1]]
+
+
+def op_members(kind, op):
+    return list(op[1][0]) + list(op[1][1]) if kind == "D" else list(op[1])
+
+
+def labels_of(case):
     kind = case["kind"]
-    h = {"H": Hypergraph, "D": DirectedHypergraph, "T": TemporalHypergraph, "M": MultiplexHypergraph}[kind]()
     for op in case["ops"]:
-        if op[0] == "n":
-            h.add_node(op[1])
-        elif op[0] == "re":
-            if h.check_edge(tuple(op[1])):
-                h.remove_edge(tuple(op[1]))
-        elif op[0] == "rn":
-            if h.check_node(op[1]):
-                h.remove_node(op[1], keep_edges=op[2])
-        elif kind == "H":
-            h.add_edge(tuple(op[1]))
-        elif kind == "D":
-            h.add_edge((tuple(op[1][0]), tuple(op[1][1])))
-        elif kind == "T":
-            h.add_edge(tuple(op[1]), op[2])
+        t = op[0]
+        if t in ("n", "rn"):
+            yield op[1]
+        elif t in ("e", "re"):
+            yield from op_members(kind, op)
+        elif t in ("E", "RE", "ctor"):
+            for e in op[1]:
+                yield from e
+        elif t == "RN":
+            yield from op[1]
+        elif t == "sub":
+            yield from op[2]
+
+
+WEIGHTS = [2, 0.5, 3, 1]
+
+
+def new_obj(kind, edge_list=None, weighted=False):
+    from hypergraphx import Hypergraph, DirectedHypergraph, TemporalHypergraph, MultiplexHypergraph
+    if edge_list is not None:
+        if weighted:      # the constructor wants distinct hyperedges when weights are given
+            es = list(dict.fromkeys(tuple(sorted(e)) for e in edge_list))
+            return Hypergraph(edge_list=es, weighted=True, weights=[WEIGHTS[j % 4] for j in range(len(es))])
+        return Hypergraph(edge_list=[tuple(e) for e in edge_list])
+    cls = {"H": Hypergraph, "D": DirectedHypergraph, "T": TemporalHypergraph, "M": MultiplexHypergraph}[kind]
+    return cls(weighted=True) if weighted else cls()
+
+
+class World:
+    """the objects of one program: shadows always, implementation objects and model lines when `rank` is given"""
+
+    def __init__(self, kind, rank=None, weighted=False):
+        self.kind, self.rank, self.live, self.weighted = kind, rank, rank is not None, bool(weighted)
+        self.sh = [Shadow(kind)]
+        self.objs = [new_obj(kind, weighted=self.weighted)] if self.live else [None]
+        self.focus = 0
+        self.rel = [set()]            # copy / subhypergraph lineage
+        self.stale = [False]          # a relative was mutated after the copy was taken
+        self.checked = [False]        # queried before ...
+        self.touched = [False]        # ... and mutated in place since
+        self.lines = ["hnew"] if kind == "H" else []
+        self.nops = 0
+
+    # model lines (Hypergraph only: the Lean history model `C08.Hist`)
+    def _m(self, *toks):
+        if self.live and self.kind == "H":
+            self.lines.append(" ".join(str(t) for t in toks))
+
+    def _e(self, e):
+        return hgxv.enc_list(sorted(self.rank[x] for x in e), "_") if self.live else ""
+
+    def _r(self, x):
+        return self.rank[x] if self.live else 0
+
+    def _w(self, j=0):
+        """weight keyword of add_edge: weighted hypergraphs count hyperedges all the same"""
+        return {"weight": WEIGHTS[(self.nops + j) % 4]} if self.weighted else {}
+
+    def _mutated(self, i):
+        self.touched[i] = True
+        for j in self.rel[i]:
+            self.stale[j] = True
+
+    def _spawn(self, src, shadow, make):
+        self.sh.append(shadow)
+        self.objs.append(make() if self.live else None)
+        k = len(self.sh) - 1
+        fam = {src} | self.rel[src]
+        self.rel.append(set(fam))
+        for j in fam:
+            self.rel[j].add(k)
+        self.stale.append(False)
+        self.checked.append(False)
+        self.touched.append(False)
+
+    def apply(self, op):
+        """returns the index of the object to check for a "chk" op, else None"""
+        import copy as _copy
+        kind, t, i = self.kind, op[0], self.focus
+        s, h = self.sh[i], self.objs[i]
+        if t == "on":
+            if 0 <= op[1] < len(self.sh):
+                self.focus = op[1]
+            return None
+        if t == "chk":
+            return op[1] if len(op) > 1 and 0 <= op[1] < len(self.sh) else i
+        if t in ("cp", "sub"):
+            src = op[1]
+            if not (0 <= src < len(self.sh)) or len(self.sh) >= MAX_OBJS or (t == "sub" and kind != "H"):
+                return None
+            if t == "cp":
+                self._spawn(src, self.sh[src].copy(),
+                            lambda: _copy.deepcopy(self.objs[src]) if kind == "M" else self.objs[src].copy())
+                self._m("hcp", src)
+            else:
+                nodes = [x for x in dict.fromkeys(op[2]) if x in self.sh[src].nodes]
+                self._spawn(src, self.sh[src].sub(nodes), lambda: self.objs[src].subhypergraph(list(nodes)))
+                self._m("hsub", src, hgxv.enc_list([self.rank[x] for x in nodes]) if self.live else "")
+            return None
+        self.nops += 1
+        if t == "n":
+            if self.live:
+                h.add_node(op[1])
+                self._m("hn", i, self._r(op[1]))
+            s.add_node(op[1])
+        elif t == "e":
+            r = s.rec(op)
+            if self.live:
+                if kind == "H":
+                    h.add_edge(tuple(op[1]), **self._w())
+                    self._m("he", i, self._e(op[1]))
+                elif kind == "D":
+                    h.add_edge((tuple(op[1][0]), tuple(op[1][1])), **self._w())
+                else:
+                    h.add_edge(tuple(op[1]), op[2], **self._w())
+            s.add(r)
+        elif t == "re":
+            r = s.rec(op)
+            if r not in s.recs:
+                return None
+            if self.live:
+                if kind == "H":
+                    h.remove_edge(tuple(op[1]))
+                    self._m("hre", i, self._e(op[1]))
+                elif kind == "D":
+                    h.remove_edge((tuple(op[1][0]), tuple(op[1][1])))
+                elif kind == "T":
+                    h.remove_edge(tuple(op[1]), op[2])
+                else:
+                    h.remove_edge((tuple(op[1]), op[2]))
+            s.remove(r)
+        elif t == "rn":
+            if op[1] not in s.nodes:
+                return None
+            if self.live:
+                h.remove_node(op[1], keep_edges=bool(op[2]))
+                self._m("hrn", i, self._r(op[1]), 1 if op[2] else 0)
+            s.remove_node(op[1], bool(op[2]))
+        elif kind != "H":
+            return None
+        elif t in ("E", "ctor"):
+            if t == "ctor" and self.nops == 1 and len(self.sh) == 1:
+                if self.live:
+                    self.objs[i] = new_obj("H", op[1], self.weighted)
+            elif self.live and self.weighted:     # with weights the batch must not repeat a hyperedge (the code rejects it)
+                es = list(dict.fromkeys(tuple(sorted(e)) for e in op[1]))
+                h.add_edges(es, weights=[self._w(j)["weight"] for j in range(len(es))])
+            elif self.live:
+                h.add_edges([tuple(e) for e in op[1]])
+            for e in op[1]:
+                s.add(tuple(sorted(e)))
+                self._m("he", i, self._e(e))
+        elif t == "RE":
+            es = [r for r in dict.fromkeys(tuple(sorted(e)) for e in op[1]) if r in s.recs]
+            if not es:
+                return None
+            if self.live:
+                h.remove_edges(list(es))
+            for r in es:
+                s.remove(r)
+                self._m("hre", i, self._e(r))
+        elif t == "RN":
+            xs = [x for x in dict.fromkeys(op[1]) if x in s.nodes]
+            if not xs:
+                return None
+            if self.live:
+                h.remove_nodes(list(xs), keep_edges=bool(op[2]))
+            for x in xs:
+                s.remove_node(x, bool(op[2]))
+                self._m("hrn", i, self._r(x), 1 if op[2] else 0)
+        elif t == "clr":
+            if self.live:
+                h.clear()
+                self._m("hclr", i)
+            s.clear()
         else:
-            h.add_edge(tuple(op[1]), op[2])
-    return h
+            return None
+        self._mutated(i)
+        return None
 
 
 # ------------------------------------------------------------------------------------------
@@ -307,18 +578,48 @@ def parse_model(name, a):
     raise ValueError(name)
 
 
-def check_h(ctx, case, filters=None):
-    """phase 1 (runs under the watchdog): the implementation against the definitions; returns the model dialogue"""
-    h = build(case)
+class Capped:
+    """at most CAP violations per check of one object (one wrong adjacency list shows in hundreds of answers)"""
+    CAP = 6
+
+    def __init__(self, ctx):
+        self.ctx, self.n = ctx, 0
+
+    def __call__(self, where, what):
+        self.n += 1
+        if self.n <= self.CAP:
+            self.ctx.violation(where, what)
+        else:
+            self.ctx.count("further_violations_of_the_same_check_not_listed")
+
+
+def content_ok(ctx, where, h, s, listing):
+    """get_nodes()/get_edges() against the content the history defines; returns (nodes, records) or None"""
     nodes = list(h.get_nodes())
-    edges = [tuple(e) for e in h.get_edges()]
-    universe = sorted(set(nodes) | {x for e in edges for x in e})
-    rank = {x: i for i, x in enumerate(universe)}
+    recs = [listing(e) for e in h.get_edges()]
+    if len(set(nodes)) != len(nodes) or set(nodes) != set(s.nodes) or len(set(recs)) != len(recs) or set(recs) != set(s.recs):
+        ctx.violation(where, f"after this history the object lists nodes {sorted(nodes, key=repr)} / hyperedges "
+                             f"{sorted(recs, key=repr)}; the history defines nodes {sorted(s.nodes, key=repr)} / hyperedges "
+                             f"{sorted(s.recs, key=repr)}")
+        return None
+    return nodes, recs
+
+
+def check_h(ctx, case, w, i, filters=None):
+    """one check of object i (runs under the watchdog): the implementation against the definitions evaluated on the
+    content the history defines; returns the model dialogue"""
+    h, s, rank = w.objs[i], w.sh[i], w.rank
+    got = content_ok(ctx, case, h, s, tuple)
+    if got is None:
+        return [], []
+    nodes, edges = got
+    report = Capped(ctx)
     nodes_r = [rank[x] for x in nodes]
     edges_r = [tuple(rank[x] for x in e) for e in edges]
     key = repr(("H", nodes_r, sorted(edges_r)))
-    lines = ["load " + hgxv.enc_lists(edges_r) + " " + hgxv.enc_list(nodes_r)]
-    expect = [None]
+    # the model computes the content from the history itself (`hshow`), then answers on it (`huse`)
+    lines = [f"hshow {i}", f"huse {i}"]
+    expect = [("content", sorted(sorted(e) for e in edges_r), sorted(nodes_r)), ("ok",)]
     nontrivial = False
     filters = filters or FILTERS
     for f in filters:
@@ -337,20 +638,20 @@ def check_h(ctx, case, filters=None):
                 if name in ("largest", "lsize") and not classes:
                     continue        # no component exists: nothing to be consistent with (the code raises)
                 if is_exc(got):
-                    ctx.violation(where, f"{api} {name} {kw(f)} raised {got[1]} on a valid node/filter")
+                    report(where, f"{api} {name} {kw(f)} raised {got[1]} on a valid node/filter")
                 elif name == "largest":
                     if got not in classes or len(got) != orc["lsize"]:
-                        ctx.violation(where, f"{api} largest_component {kw(f)} = {got}: not a reachability class of maximal "
+                        report(where, f"{api} largest_component {kw(f)} = {got}: not a reachability class of maximal "
                                              f"size {orc['lsize']} (classes {classes})")
                 elif got != want:
-                    ctx.violation(where, f"{api} {name} {kw(f)} = {got}, the definition gives {want}")
+                    report(where, f"{api} {name} {kw(f)} = {got}, the definition gives {want}")
         for name in orc:
             lines.append(f"{name.split()[0]} {' '.join(name.split()[1:] + [tok(f)])}")
-            expect.append((name, f, seen["method"][name], seen["module"][name], classes))
+            expect.append(("q", name, f, seen["method"][name], seen["module"][name], classes))
     ctx.case(key, nontrivial, sample=case)
     ctx.count("nodes_total", len(nodes))
     ctx.count("hyperedges_total", len(edges))
-    if any(op[0] in ("re", "rn") for op in case["ops"]):
+    if any(op[0] in ("re", "rn", "RE", "RN", "clr") for op in case["ops"]):
         ctx.count("histories_with_removals")
     if () in edges:
         ctx.count("cases_with_empty_hyperedge")
@@ -361,20 +662,42 @@ def check_h(ctx, case, filters=None):
     return lines, expect
 
 
-def compare_h(ctx, drv, case, lines, expect):
-    """phase 2: the same questions to the Lean model"""
+def compare(ctx, drv, case, lines, expect):
+    """phase 2: the same history and the same questions to the Lean model"""
     ans = drv.batch(lines)
-    if ans[0] != "ok":
-        ctx.disagree(case, f"model rejects the load line: {ans[0]}")
-        return
-    for ln, a, ex in zip(lines[1:], ans[1:], expect[1:]):
-        name, f, gm, gf, classes = ex
+    skip = False                      # content differs: the answers on it differ for that reason only
+    budget = [12]                     # disagreements listed per program
+
+    def disagree(where, what):
+        budget[0] -= 1
+        if budget[0] >= 0:
+            ctx.disagree(where, what)
+        else:
+            ctx.count("further_disagreements_of_the_same_program_not_listed")
+    for ln, a, ex in zip(lines, ans, expect):
+        if ex[0] == "ok":
+            if a != "ok":
+                disagree({**case, "line": ln}, f"model answers {a!r} to the history line {ln!r}")
+            if ln.startswith(("gload", "dload")):
+                skip = False
+            continue
+        if ex[0] == "content":
+            want = hgxv.enc_lists(ex[1]) + "|" + hgxv.enc_list(ex[2])
+            skip = a != want
+            if skip:
+                disagree({**case, "line": ln}, f"the model history gives content {a!r}, the implementation lists {want!r}")
+            continue
+        if skip:
+            continue
+        _, name, f, gm, gf, classes = ex
         try:
             m = parse_model(name, a)
         except Exception:  # noqa: BLE001
-            ctx.disagree({**case, "line": ln}, f"model answer {a!r} to {ln!r} not understood")
+            disagree({**case, "line": ln}, f"model answer {a!r} to {ln!r} not understood")
             continue
         for api, got in (("method", gm), ("module", gf)):
+            if got is None:
+                continue
             if is_exc(m) or is_exc(got):
                 ok = is_exc(m) and is_exc(got)
             elif name == "largest":
@@ -382,30 +705,25 @@ def compare_h(ctx, drv, case, lines, expect):
             else:
                 ok = got == m
             if not ok:
-                ctx.disagree({**case, "filter": tok(f), "api": api, "query": name},
+                disagree({**case, "filter": tok(f), "api": api, "query": name},
                              f"model answers {m!r} to {ln!r}, implementation ({api}) gives {got!r}")
 
 
 # ------------------------------------------------------------------------------------------
 # degrees of the three other classes
 
-def check_other(ctx, case):
+def check_other(ctx, case, w, i):
     from hypergraphx.measures import degree as D
     kind = case["kind"]
-    h = build(case)
-    nodes = list(h.get_nodes())
-    raw = list(h.get_edges())
-    if kind == "D":
-        keys = [(tuple(e[0]), tuple(e[1])) for e in raw]
-        members = [k[0] + k[1] for k in keys]
-    elif kind == "T":
-        keys = [(e[0], tuple(e[1])) for e in raw]
-        members = [k[1] for k in keys]
-    else:
-        keys = [(tuple(e[0]), e[1]) for e in raw]
-        members = [k[0] for k in keys]
-    universe = sorted(set(nodes) | {x for m in members for x in m})
-    rank = {x: i for i, x in enumerate(universe)}
+    h, s, rank = w.objs[i], w.sh[i], w.rank
+    listing = {"D": lambda e: (tuple(e[0]), tuple(e[1])), "T": lambda e: (e[0], tuple(e[1])),
+               "M": lambda e: (tuple(e[0]), e[1])}[kind]
+    got = content_ok(ctx, case, h, s, listing)
+    if got is None:
+        return [], []
+    nodes, keys = got
+    report = Capped(ctx)
+    members = [s.members(k) for k in keys]
     nodes_r = [rank[x] for x in nodes]
     if kind == "D":
         lines = ["dload " + hgxv.enc_lists([[rank[x] for x in k[0]] for k in keys]) + " "
@@ -414,7 +732,7 @@ def check_other(ctx, case):
     else:
         lines = ["gload " + hgxv.enc_lists([[rank[x] for x in m] for m in members]) + " " + hgxv.enc_list(nodes_r)]
         pre = "g"
-    expect = [None]
+    expect = [("ok",)]
     key = repr((kind, nodes_r, sorted(zip([tuple(rank[x] for x in m) for m in members], map(repr, keys)))))
     kept = excl = False
     for f in FILTERS:
@@ -453,58 +771,245 @@ def check_other(ctx, case):
             for name, got in o.items():
                 where = {**case, "filter": tok(f), "api": api, "query": name}
                 if is_exc(got):
-                    ctx.violation(where, f"{kind} {api} {name} {k} raised {got[1]} on a valid node/filter")
+                    report(where, f"{kind} {api} {name} {k} raised {got[1]} on a valid node/filter")
                 elif got != orc[name]:
-                    ctx.violation(where, f"{kind} {api} {name} {k} = {got}, the definition gives {orc[name]}")
+                    report(where, f"{kind} {api} {name} {k} = {got}, the definition gives {orc[name]}")
         for name in orc:
             lines.append(f"{pre}{name.split()[0]} {' '.join(name.split()[1:] + [tok(f)])}")
-            expect.append((name, f, o_m.get(name), o_f[name]))
+            expect.append(("q", name, f, o_m.get(name), o_f[name], None))
     ctx.case(key, kept and excl, sample=None)
     ctx.count("cases_" + kind)
     return lines, expect
 
 
-def compare_other(ctx, drv, case, lines, expect):
-    ans = drv.batch(lines)
-    if ans[0] != "ok":
-        ctx.disagree(case, f"model rejects the load line: {ans[0]}")
-        return
-    for ln, a, ex in zip(lines[1:], ans[1:], expect[1:]):
-        name, f, gm, gf = ex
-        m = parse_model(name, a)
-        for api, got in (("method", gm), ("module", gf)):
-            if got is None:
-                continue
-            ok = (is_exc(m) and is_exc(got)) if (is_exc(m) or is_exc(got)) else got == m
-            if not ok:
-                ctx.disagree({**case, "filter": tok(f), "api": api, "query": name},
-                             f"model answers {m!r} to {ln!r}, implementation ({api}) gives {got!r}")
-
-
-WATCHDOG_S = 5        # a normal case takes ~10 ms
+WATCHDOG_S = 5        # one check of one object takes ~10 ms
 
 
 def check_case(ctx, drv, case, filters=None):
+    """run the program of `case`, check the objects it asks for and every object at the end"""
+    kind = case["kind"]
+    case = {**case, "ops": [list(op) for op in case["ops"]]}
+    lines, expect = [], []
     try:
-        if case["kind"] == "H":
-            lines, expect = guarded(WATCHDOG_S, lambda: check_h(ctx, case, filters))
-        else:
-            lines, expect = guarded(WATCHDOG_S, lambda: check_other(ctx, case))
+        universe = sorted(set(labels_of(case)))
+        rank = {x: i for i, x in enumerate(universe)}
+        w = World(kind, rank, case.get("weighted", False))
+    except Exception as ex:  # noqa: BLE001
+        ctx.violation(case, f"creating an empty hypergraph raised {type(ex).__name__}: {ex}")
+        return
+    state = {"n": 0, "sent": 0}
+
+    def check(i):
+        where = {**case, "check": state["n"], "object": i}
+        state["n"] += 1
+        lines.extend(w.lines[state["sent"]:])
+        expect.extend([("ok",)] * (len(w.lines) - state["sent"]))
+        state["sent"] = len(w.lines)
+        ln, ex = check_h(ctx, where, w, i, filters) if kind == "H" else check_other(ctx, where, w, i)
+        lines.extend(ln)
+        expect.extend(ex)
+        ctx.count("checks")
+        if w.stale[i]:
+            ctx.count("checks_after_a_copy_relative_was_mutated")
+        if w.checked[i] and w.touched[i]:
+            ctx.count("rechecks_after_mutation_in_place")
+        w.checked[i], w.touched[i] = True, False
+
+    def body():
+        for op in case["ops"]:
+            i = w.apply(op)
+            if i is not None:
+                check(i)
+        for i in range(len(w.objs)):
+            check(i)
+
+    try:
+        guarded(WATCHDOG_S * (2 + sum(1 for op in case["ops"] if op[0] in ("chk", "cp", "sub"))), body)
     except Timeout:
-        ctx.violation(case, f"a degree / connectivity call did not return within {WATCHDOG_S} s on this input")
+        ctx.violation(case, "a call did not return within the watchdog time on this history")
         ctx.count("watchdog_timeouts")
         return
     except (MemoryError, RecursionError) as ex:
-        ctx.violation(case, f"a degree / connectivity call died with {type(ex).__name__} on this input")
+        ctx.violation(case, f"a degree / connectivity call died with {type(ex).__name__} on this history")
         ctx.count("watchdog_timeouts")
         return
     except AssertionError:
         raise                       # the oracle contradicts itself: tool failure, not a finding
-    except Exception as ex:  # noqa: BLE001 - building the container or reading it back failed
-        ctx.violation(case, f"building / reading the hypergraph raised {type(ex).__name__}: {ex}")
+    except Exception as ex:  # noqa: BLE001 - an operation of the history or reading the object back failed
+        ctx.violation(case, f"a valid operation of this history (or reading the object back) raised {type(ex).__name__}: {ex}")
         return
-    if drv is not None:
-        (compare_h if case["kind"] == "H" else compare_other)(ctx, drv, case, lines, expect)
+    if len(w.objs) > 1:
+        ctx.count("programs_with_several_objects")
+    if w.weighted:
+        ctx.count("programs_on_weighted_hypergraphs")
+    for t in {op[0] for op in case["ops"]}:
+        ctx.count("programs_with_op_" + t)
+    if drv is not None and lines:
+        compare(ctx, drv, case, lines, expect)
+
+
+# ------------------------------------------------------------------------------------------
+# program generator
+
+def make_op(rng, kind, e, tag="e"):
+    if kind == "H":
+        return [tag, list(e)]
+    if kind == "D":
+        k = rng.randint(1, len(e) - 1)
+        return [tag, [list(e[:k]), list(e[k:])]]
+    if kind == "T":
+        return [tag, list(e), rng.randint(0, 3)]
+    return [tag, list(e), rng.choice(LAYERS)]
+
+
+def fresh_record(rng, kind, s, labels, size=None):
+    """an add_edge op for a record that is not in s, over nodes of s (20%: one further label)"""
+    pool = list(s.nodes) if len(s.nodes) >= 2 else list(labels)
+    lo = 2 if kind == "D" else 1
+    if len(pool) < lo:
+        return None
+    for _ in range(6):
+        k = size if size is not None else rng.choice([1, 2, 2, 3, 3, 4])
+        k = max(lo, min(k, len(pool)))
+        e = rng.sample(pool, k)
+        if size is None and rng.random() < 0.2:
+            extra = [x for x in labels if x not in e]
+            if extra:
+                e.append(rng.choice(extra))
+        op = make_op(rng, kind, e)
+        if s.rec(op) not in s.recs:
+            return op
+    return None
+
+
+def gen_mut(rng, kind, s, labels, removed):
+    """one random mutation of the object with shadow s, chosen so that it touches what the object holds"""
+    recs, nodes = list(s.recs), list(s.nodes)
+    r = rng.random()
+    if r < 0.30 and recs:
+        rec = rng.choice(recs)
+        removed.append(rec)
+        return [op_of_rec(kind, rec, "re")]
+    if r < 0.42 and removed:
+        return [op_of_rec(kind, removed.pop(rng.randrange(len(removed))), "e")]      # re-insertion
+    if r < 0.68:
+        op = fresh_record(rng, kind, s, labels)
+        return [op] if op else []
+    if r < 0.74:
+        extra = [x for x in labels if x not in s.nodes]
+        return [["n", rng.choice(extra)]] if extra else []
+    if r < 0.88 and nodes:
+        return [["rn", rng.choice(nodes), rng.random() < 0.5]]
+    if kind != "H":
+        return []
+    if r < 0.915 and len(recs) >= 2:
+        two = rng.sample(recs, 2)
+        removed.extend(two)
+        return [["RE", [list(q) for q in two]]]
+    if r < 0.945 and len(nodes) >= 2:
+        return [["RN", rng.sample(nodes, 2), rng.random() < 0.5]]
+    if r < 0.975:
+        ops = [fresh_record(rng, kind, s, labels) for _ in range(2)]
+        return [["E", [op[1] for op in ops if op]]] if any(ops) else []
+    return [["clr"]]
+
+
+def gen_swap(rng, kind, s, labels, removed):
+    """remove one record and insert another one of the same size over the present nodes: node and hyperedge counts
+    (the cheap signatures a cache would look at) stay equal"""
+    recs = [q for q in s.recs if len(s.members(q)) >= (2 if kind == "D" else 1)]
+    if not recs:
+        return []
+    rec = rng.choice(recs)
+    op = fresh_record(rng, kind, s, labels, size=len(s.members(rec)))
+    if op is None or len(op_members(kind, op)) != len(s.members(rec)):
+        return []
+    removed.append(rec)
+    return [op_of_rec(kind, rec, "re"), op]
+
+
+ROUTES = ["plain"] * 7 + ["detour"] * 3 + ["copy"] * 3 + ["copied"] * 3 + ["requery"] * 3 + ["random"] * 4
+
+
+def gen_program(rng, kind):
+    base = (gen_h(rng) if kind == "H" else gen_other(rng, kind))["ops"]
+    route = rng.choice(ROUTES)
+    labels = list(dict.fromkeys(labels_of({"kind": kind, "ops": base})))
+    weighted = rng.random() < 0.2       # a weighted hypergraph is a hypergraph: its degrees count hyperedges
+    if route == "plain" or not labels:
+        return {"kind": kind, "ops": base, "route": "plain", "weighted": weighted}
+    if kind == "H" and rng.random() < 0.2:
+        # the hyperedges arrive through the constructor
+        base = [["ctor", [op[1] for op in base if op[0] == "e"]]] + [op for op in base if op[0] != "e"]
+    w = World(kind)
+    ops, removed = [], []
+
+    def add(op):
+        ops.append(op)
+        w.apply(op)
+
+    def muts(k, swap=False):
+        for _ in range(k):
+            s = w.sh[w.focus]
+            for op in (gen_swap if swap else gen_mut)(rng, kind, s, labels, removed):
+                add(op)
+
+    if route == "detour":
+        # temporary records inserted first and removed again (internal ids get gaps), then a part of the records
+        # removed and inserted again (they move to the end of the adjacency lists, ids are no longer dense)
+        temps = [fresh_record(rng, kind, w.sh[0], labels) for _ in range(rng.randint(1, 3))]
+        temps = [t for t in temps if t]
+        for t in temps:
+            add(t)
+        half = len(base) // 2
+        for op in base[:half]:
+            add(op)
+        for t in temps:
+            add(["re"] + t[1:])
+        for op in base[half:]:
+            add(op)
+        again = rng.sample(list(w.sh[0].recs), min(len(w.sh[0].recs), rng.randint(1, 3)))
+        for q in again:
+            add(op_of_rec(kind, q, "re"))
+        for q in again:
+            add(op_of_rec(kind, q, "e"))
+    else:
+        for op in base:
+            add(op)
+    if route == "copy":          # object 0 is the ORIGINAL of a copy that is mutated afterwards (and must not notice)
+        add(["cp", 0])
+        add(["on", 1])
+        muts(rng.randint(1, 4))
+        if rng.random() < 0.3:
+            add(["chk", 0])
+            muts(rng.randint(1, 2))
+    elif route == "copied":      # object 1 is a COPY whose original is mutated afterwards
+        add(["cp", 0])
+        muts(rng.randint(1, 4))
+        if rng.random() < 0.3:
+            add(["chk", 1])
+            muts(rng.randint(1, 2))
+    elif route == "requery":     # the same object queried, mutated in place, queried again
+        add(["chk"])
+        muts(rng.randint(1, 2), swap=rng.random() < 0.6)
+        add(["chk"])
+        muts(rng.randint(0, 2))
+    elif route == "random":
+        for _ in range(rng.randint(2, 7)):
+            r = rng.random()
+            if r < 0.22 and len(w.sh) < MAX_OBJS:
+                add(["cp", rng.randrange(len(w.sh))])
+            elif r < 0.32 and kind == "H" and len(w.sh) < MAX_OBJS:
+                src = rng.randrange(len(w.sh))
+                nodes = list(w.sh[src].nodes)
+                add(["sub", src, rng.sample(nodes, rng.randint(0, len(nodes)))])
+            elif r < 0.50:
+                add(["on", rng.randrange(len(w.sh))])
+            elif r < 0.62:
+                add(["chk", rng.randrange(len(w.sh))])
+            else:
+                muts(rng.randint(1, 3), swap=rng.random() < 0.2)
+    return {"kind": kind, "ops": ops, "route": route, "weighted": weighted}
 
 
 SMALL_FILTERS = [None, ("size", 0), ("size", 1), ("size", 2), ("size", 3), ("size", 4), ("size", 5),
@@ -527,7 +1032,8 @@ def run(ctx):
         if stop(ctx):
             break
         r = ctx.rng.random()
-        case = gen_h(ctx.rng) if r < 0.7 else gen_other(ctx.rng, "DTM"[i % 3])
+        case = gen_program(ctx.rng, "H" if r < 0.7 else "DTM"[i % 3])
+        ctx.count("route_" + case["route"])
         check_case(ctx, drv, case)
     if ctx.tier == "thorough":
         subsets = [list(c) for k in range(1, 5) for c in itertools.combinations(range(4), k)]
@@ -543,5 +1049,5 @@ def run(ctx):
 
 def replay(ctx, case):
     drv = ctx.driver() if ctx.model_available else None
-    case = {"kind": case["kind"], "ops": case["ops"]}
+    case = {"kind": case["kind"], "ops": case["ops"], "weighted": bool(case.get("weighted", False))}
     check_case(ctx, drv, case)
